@@ -10,9 +10,9 @@ from ..tstate import GARBAGE, World
 
 CONFIGS_QUICK = [("DDF", "param", "GridsDenseQ"), ("DDF", "callable", "GridsDenseQ"), ("SVF", "param", "GridsDenseQ"),
                  ("SVF", "tensor", "GridsDenseQ"), ("SVF", "callable", "GridsDenseQ"), ("FFD", "tensor", "GridsSpline"),
-                 ("FFD", "callable", "GridsSpline"), ("SVFFD", "param", "GridsSpline")]
+                 ("FFD", "callable", "GridsSpline"), ("SVFFD", "param", "GridsSpline"), ("SEQ", "callable", "GridsOne")]
 CONFIGS_THOROUGH = [(k, h, "GridsDense" if k in ("DDF", "SVF") else "GridsSpline")
-                    for k in ("DDF", "SVF", "FFD", "SVFFD") for h in ("param", "tensor", "callable")]
+                    for k in ("DDF", "SVF", "FFD", "SVFFD") for h in ("param", "tensor", "callable")] + [("SEQ", "callable", "GridsOne")]
 
 INVARIANTS = "INVARIANT TypeOK\nINVARIANT CallFresh\nINVARIANT DispFreshAfterReplace\nINVARIANT InverseStaysInverse\nPROPERTY CopiesIndependent\n"
 
@@ -29,7 +29,7 @@ def cfg(kind: str, holder: str, gridsdef: str, maxobj: int, maxlen: int, emit: b
 def step_sig(kind: str, holder: str, hist: List[dict], k: int) -> Dict[str, Any]:
     st = hist[k]
     prev = [h["a"] + (":" + str(h["arg"]) if h["a"] in ("grid_", "grid", "inverse") else "") for h in hist[:k]]
-    return dict(kind=kind, holder=holder, a=st["a"], arg=st["arg"] if st["a"] in ("grid_", "grid", "inverse") else "",
+    return dict(kind=kind, holder=holder, a=st["a"], kw=bool(st.get("kw")), arg=st["arg"] if st["a"] in ("grid_", "grid", "inverse") else "",
                 after=sorted(set(prev)))
 
 
@@ -39,6 +39,8 @@ def replay_history(ctx: Ctx, case: Dict[str, Any], props: Tuple[str, ...] = ("C0
         w = World(kind, holder)
     except Exception as ex:
         raise MachineryError(f"cannot construct {kind}/{holder}: {ex}")
+    # conditioning arguments are given positionally or by keyword
+    hist = [dict(st, kw=(k + len(hist)) % 2 == 1) if st["a"] in ("condition_", "condition") else st for k, st in enumerate(hist)]
     for k, st in enumerate(hist):
         try:
             obs = w.do(st)
